@@ -10,6 +10,420 @@ import Rox.Lemmas.GrammarTok
 namespace Rox.Lemmas
 open Rox Rox.Spec.Grammar Rox.TM
 
+/-! ### Processing instructions -/
+
+theorem mt_skipSpacesAux_ns (T : Tables) : ∀ (l : Bytes) (pos : Nat),
+    (Stream.skipSpacesAux T pos l).startsWithSpace T = false := by
+  intro l
+  induction l with
+  | nil => intro pos; rfl
+  | cons b r ih =>
+    intro pos
+    simp only [Stream.skipSpacesAux]
+    split
+    · exact ih (pos + 1)
+    · rename_i hb
+      simpa [Stream.startsWithSpace] using hb
+
+/-- after the local `consume_spaces` of `parse_pi` the next byte is not white space -/
+theorem mt_declConsumeSpaces_ns (T : Tables) (txt : Bytes) {s s' : Stream}
+    (h : declConsumeSpaces T txt s = .ok s') : s'.startsWithSpace T = false := by
+  unfold declConsumeSpaces at h
+  split at h
+  · simp only [Res.ok.injEq] at h
+    subst h
+    exact mt_skipSpacesAux_ns T s.rest s.pos
+  · rename_i hsp
+    split at h
+    · split at h
+      · exact absurd h (errAt_ne_ok _ _ _ _)
+      · simp at h
+    · simp only [Res.ok.injEq] at h
+      subst h
+      simpa using hsp
+
+/-- the first byte of a run taken from a cursor is the cursor's first byte -/
+theorem mt_took_head {s s' : Stream} {b : UInt8} {v : Bytes} (h : Took s s' (b :: v)) :
+    ∃ r, s.rest = b :: r := by
+  have h4 := h.2.2.2
+  cases hr : s.rest with
+  | nil => rw [hr] at h4; simp at h4
+  | cons c r =>
+    rw [hr] at h4
+    simp only [List.length_cons, List.take_succ_cons, List.cons.injEq] at h4
+    exact ⟨r, by rw [h4.1]⟩
+
+theorem parsePi_itemM (T : Tables) (hT : TablesOK T) (_hG : TablesGrammar T) (txt : Bytes)
+    {s s' : Stream} {toks : List Token} (hs : SOk txt s)
+    (hp : s.startsWith Lit.piStart = true) (h : parsePi T txt s = (toks, .ok s')) :
+    ∃ t sp v, (Took s s' (Item.pi t sp v).bytes ∧ SOk txt s' ∧ (Item.pi t sp v).Lex T ∧
+      ItemToks (.pi t sp v) toks) ∧ (Item.pi t sp v).PiN T ∧ PiTok (.pi t sp v) toks := by
+  unfold parsePi at h
+  split at h
+  · exact absurd h (tm_lift_ne_ok (errAt_ne_ok _ _ _))
+  obtain ⟨s1, h1, h⟩ := tm_lift_bind_ok h
+  obtain ⟨⟨s2, target⟩, h2, h⟩ := tm_lift_bind_ok h
+  obtain ⟨s3, h3, h⟩ := tm_lift_bind_ok h
+  obtain ⟨⟨s4, content⟩, h4, h⟩ := tm_lift_bind_ok h
+  obtain ⟨s5, h5, h⟩ := tm_lift_bind_ok h
+  have k1 := (advance_lit hs Lit.piStart hp (lit_valid _ (by decide))).post _ h1
+  have t1 := advance_took Lit.piStart hp h1
+  obtain ⟨k2, _, _, t2, _⟩ := (consumeName_spec T txt k1.1.2).post _ h2
+  simp only at k2 t2
+  have k3 := (declConsumeSpaces_spec T hT txt k2.2).post _ h3
+  obtain ⟨sp, t3, hsp, hsp0⟩ := declConsumeSpaces_took T txt h3
+  have hns := mt_declConsumeSpaces_ns T txt h3
+  obtain ⟨k4, _, _, t4⟩ := (consumeChars_spec T txt _ k3.2).post _ h4
+  simp only at k4 t4 h5 h
+  have k5 := (skipString_spec k4.2 Lit.piEnd (lit_valid _ (by decide))).post _ h5
+  have t5 := skipString_took Lit.piEnd h5
+  obtain ⟨t, h, htoks⟩ := tm_emit_bind_ok h
+  obtain ⟨ht, hs'⟩ := tm_pure_ok h
+  subst ht; subst hs'; subst htoks
+  refine ⟨target.bytes, sp, content.bytes,
+    ⟨Took.trans (Took.trans (Took.trans (Took.trans t1 t2) t3) t4) t5,
+    k5.1.2, ⟨consumeName_name T txt k1.1.2 h2, hsp, ?_, consumeChars_chars T txt _ k3.2 h4, ?_⟩,
+    ItemToks.pi _ _ _ target _ _ rfl⟩, ?_, ?_⟩
+  · intro hv hsp'
+    apply hv
+    apply consumeChars_nil_of_stop T txt _ h4
+    rcases hsp0 hsp' with h0 | h0
+    · exact Or.inl h0
+    · right
+      obtain ⟨r, hr⟩ := List.isPrefixOf_iff_prefix.mp h0
+      have hr' : s3.rest = 63 :: 62 :: r := hr.symm
+      refine ⟨63, 1, ?_, ?_⟩
+      · rw [hr']; exact decodeChar_ascii 63 _ (by decide)
+      · simp [h0]
+  · exact consumeChars_noSub T txt 63 63 [62] rfl (by decide) k3.2 h4
+  · cases hc : content.bytes with
+    | nil => trivial
+    | cons b v =>
+      rw [hc] at t4
+      obtain ⟨r, hr⟩ := mt_took_head t4
+      show byteIsSpace T b = false
+      simpa [Stream.startsWithSpace, hr] using hns
+  · refine ⟨target, _, _, rfl, ?_⟩
+    cases hc : content.bytes.isEmpty <;> simp
+
+/-! ### Segments -/
+
+theorem mt_itemsToksM_append {a b : List Item} {ta tb : List Token} (ha : ItemsToksM a ta)
+    (hb : ItemsToksM b tb) : ItemsToksM (a ++ b) (ta ++ tb) := by
+  induction ha with
+  | nil => simpa using hb
+  | cons it its ts tss h1 h2 _ ih =>
+    rw [List.cons_append, List.append_assoc]
+    exact .cons _ _ _ _ h1 h2 ih
+
+theorem mt_all_append {P : Item → Prop} {a b : List Item} (ha : ∀ it ∈ a, P it)
+    (hb : ∀ it ∈ b, P it) : ∀ it ∈ a ++ b, P it := by
+  intro x hx
+  rcases List.mem_append.mp hx with hx | hx
+  · exact ha x hx
+  · exact hb x hx
+
+theorem mt_all_cons {P : Item → Prop} {a : Item} {b : List Item} (ha : P a)
+    (hb : ∀ it ∈ b, P it) : ∀ it ∈ a :: b, P it := by
+  intro x hx
+  rcases List.mem_cons.mp hx with rfl | hx
+  · exact ha
+  · exact hb x hx
+
+/-- a stretch of the input cut into items -/
+def mt_Seg (T : Tables) (txt : Bytes) (s s' : Stream) (items : List Item) (toks : List Token) : Prop :=
+  Took s s' (flat items) ∧ SOk txt s' ∧ (∀ it ∈ items, it.Lex T) ∧ (∀ it ∈ items, it.PiN T) ∧
+    ItemsToksM items toks
+
+theorem mt_Seg.nil {T : Tables} {txt : Bytes} {s : Stream} (hs : SOk txt s) : mt_Seg T txt s s [] [] :=
+  ⟨Took.nil s, hs, (by simp), (by simp), .nil⟩
+
+theorem mt_Seg.cons {T : Tables} {txt : Bytes} {s s1 s2 : Stream} {it : Item} {items : List Item}
+    {t1 t2 : List Token}
+    (h1 : Took s s1 it.bytes ∧ SOk txt s1 ∧ it.Lex T ∧ ItemToks it t1)
+    (hn : it.PiN T) (hp : PiTok it t1)
+    (h2 : mt_Seg T txt s1 s2 items t2) : mt_Seg T txt s s2 (it :: items) (t1 ++ t2) := by
+  obtain ⟨a1, _, a3, a4⟩ := h1
+  obtain ⟨b1, b2, b3, b4, b5⟩ := h2
+  exact ⟨a1.trans b1, b2, mt_all_cons a3 b3, mt_all_cons hn b4, .cons _ _ _ _ a4 hp b5⟩
+
+theorem mt_Seg.trans {T : Tables} {txt : Bytes} {s s1 s2 : Stream} {a b : List Item}
+    {ta tb : List Token} (h1 : mt_Seg T txt s s1 a ta) (h2 : mt_Seg T txt s1 s2 b tb) :
+    mt_Seg T txt s s2 (a ++ b) (ta ++ tb) := by
+  obtain ⟨a1, _, a3, a4, a5⟩ := h1
+  obtain ⟨b1, b2, b3, b4, b5⟩ := h2
+  exact ⟨by rw [gt_flat_append]; exact a1.trans b1, b2, mt_all_append a3 b3, mt_all_append a4 b4,
+    mt_itemsToksM_append a5 b5⟩
+
+section
+variable (T : Tables) (hT : TablesOK T) (hG : TablesGrammar T) (txt : Bytes)
+include hT
+
+/-- `skip_spaces` outside the root element: at most one white-space item -/
+theorem mt_skipSpaces_seg {s : Stream} (hs : SOk txt s) :
+    ∃ items, (∀ it ∈ items, it.isMiscI = true) ∧ mt_Seg T txt s (s.skipSpaces T) items [] := by
+  obtain ⟨w, hw, hsp, _⟩ := skipSpaces_took T s
+  have h1 := skipSpaces_step T hT hs
+  by_cases h : w = []
+  · subst h
+    exact ⟨[], (by simp), hw, h1.2, (by simp), (by simp), .nil⟩
+  · refine ⟨[.sp w], ?_, ?_, h1.2, ?_, ?_, ?_⟩
+    · intro it hit
+      rcases List.mem_singleton.mp hit with rfl
+      rfl
+    · simpa [flat, Item.bytes] using hw
+    · intro it hit
+      rcases List.mem_singleton.mp hit with rfl
+      exact ⟨h, hsp⟩
+    · intro it hit
+      rcases List.mem_singleton.mp hit with rfl
+      trivial
+    · exact ItemsToksM.cons _ _ _ _ (.sp w) trivial .nil
+
+include hG
+
+theorem mt_parseMisc_items : ∀ (fuel : Nat) (s s' : Stream) (toks : List Token), SOk txt s →
+    parseMisc T txt fuel s = (toks, .ok s') →
+    ∃ items, (∀ it ∈ items, it.isMiscI = true) ∧ mt_Seg T txt s s' items toks := by
+  intro fuel
+  induction fuel with
+  | zero =>
+    intro s s' toks hs h
+    unfold parseMisc at h
+    exact absurd h gt_fuel_ne_ok
+  | succ n ih =>
+    intro s s' toks hs h
+    unfold parseMisc at h
+    split at h
+    · obtain ⟨rfl, rfl⟩ := tm_pure_ok h
+      exact ⟨[], (by simp), mt_Seg.nil hs⟩
+    · simp only at h
+      obtain ⟨sps, hm, hseg⟩ := mt_skipSpaces_seg T hT txt hs
+      split at h
+      · rename_i hc
+        obtain ⟨t1, s2, t2, hx, hk, rfl⟩ := tm_bind_ok h
+        obtain ⟨b, hb⟩ := parseComment_item T hT hG txt hseg.2.1 hc hx
+        obtain ⟨items, him, hiseg⟩ := ih s2 s' t2 hb.2.1 hk
+        refine ⟨sps ++ (.comment b :: items), gt_misc_append hm ?_, ?_⟩
+        · intro x hx
+          rcases List.mem_cons.mp hx with rfl | hx
+          · rfl
+          · exact him x hx
+        · exact hseg.trans (mt_Seg.cons hb trivial trivial hiseg)
+      · split at h
+        · rename_i hc
+          obtain ⟨t1, s2, t2, hx, hk, rfl⟩ := tm_bind_ok h
+          obtain ⟨t, sp, v, hb, hpn, hpt⟩ := parsePi_itemM T hT hG txt hseg.2.1 hc hx
+          obtain ⟨items, him, hiseg⟩ := ih s2 s' t2 hb.2.1 hk
+          refine ⟨sps ++ (.pi t sp v :: items), gt_misc_append hm ?_, ?_⟩
+          · intro x hx
+            rcases List.mem_cons.mp hx with rfl | hx
+            · rfl
+            · exact him x hx
+          · exact hseg.trans (mt_Seg.cons hb hpn hpt hiseg)
+        · obtain ⟨rfl, rfl⟩ := tm_pure_ok h
+          refine ⟨sps, hm, ?_⟩
+          simpa using hseg
+
+theorem mt_parseContent_items : ∀ (fuel depth : Nat) (s s' : Stream) (toks : List Token), SOk txt s →
+    parseContent T txt fuel depth s = (toks, .ok s') →
+    ∃ items, Content depth items ∧ mt_Seg T txt s s' items toks ∧
+      (∀ t r, items = .text t :: r → ∃ b rest, s.rest = b :: rest ∧ b ≠ bLt) := by
+  intro fuel
+  induction fuel with
+  | zero =>
+    intro depth s s' toks hs h
+    unfold parseContent at h
+    exact absurd h gt_fuel_ne_ok
+  | succ n ih =>
+    intro depth s s' toks hs h
+    unfold parseContent at h
+    split at h
+    · obtain ⟨rfl, rfl⟩ := tm_pure_ok h
+      exact ⟨[], .eof _, mt_Seg.nil hs, by intro t r h; cases h⟩
+    · rename_i c r hr
+      split at h
+      · rename_i hc
+        have hcl : c = bLt := by simpa using hc
+        subst hcl
+        split at h
+        · rename_i nb hnb
+          obtain ⟨r', hr'⟩ := gt_nextByte hr hnb
+          split at h
+          · split at h
+            · rename_i hcs
+              obtain ⟨t1, s2, t2, hx, hk, rfl⟩ := tm_bind_ok h
+              obtain ⟨b, hb⟩ := parseComment_item T hT hG txt hs hcs hx
+              obtain ⟨items, hcn, hseg, _⟩ := ih depth s2 s' t2 hb.2.1 hk
+              exact ⟨.comment b :: items, .leaf _ _ _ rfl hcn, mt_Seg.cons hb trivial trivial hseg,
+                by intro t r h; cases h⟩
+            · split at h
+              · rename_i hcs
+                obtain ⟨t1, s2, t2, hx, hk, rfl⟩ := tm_bind_ok h
+                obtain ⟨b, hb⟩ := parseCdata_item T hT hG txt hs hcs hx
+                obtain ⟨items, hcn, hseg, _⟩ := ih depth s2 s' t2 hb.2.1 hk
+                exact ⟨.cdata b :: items, .leaf _ _ _ rfl hcn, mt_Seg.cons hb trivial trivial hseg,
+                  by intro t r h; cases h⟩
+              · exact absurd h (tm_lift_ne_ok (errAt_ne_ok _ _ _))
+          · split at h
+            · rename_i _ hq
+              have : nb = bQuest := by simpa using hq
+              subst this
+              have hsw : s.startsWith Lit.piStart = true := by
+                simp [Stream.startsWith, hr', Lit.piStart, bLt, bQuest]
+              obtain ⟨t1, s2, t2, hx, hk, rfl⟩ := tm_bind_ok h
+              obtain ⟨t, sp, v, hb, hpn, hpt⟩ := parsePi_itemM T hT hG txt hs hsw hx
+              obtain ⟨items, hcn, hseg, _⟩ := ih depth s2 s' t2 hb.2.1 hk
+              exact ⟨.pi t sp v :: items, .leaf _ _ _ rfl hcn, mt_Seg.cons hb hpn hpt hseg,
+                by intro t r h; cases h⟩
+            · split at h
+              · rename_i _ _ hsl
+                have : nb = bSlash := by simpa using hsl
+                subst this
+                obtain ⟨t1, s2, t2, hx, hk, rfl⟩ := tm_bind_ok h
+                obtain ⟨q, s2', hb⟩ := parseCloseElement_item T hT hG txt hs ⟨r', hr'⟩ hx
+                cases depth with
+                | zero =>
+                  simp only [beq_self_eq_true, if_true] at hk
+                  obtain ⟨rfl, rfl⟩ := tm_pure_ok hk
+                  exact ⟨[.etag q s2'], .last _ _, mt_Seg.cons hb trivial trivial (mt_Seg.nil hb.2.1),
+                    by intro t r h; cases h⟩
+                | succ d =>
+                  have hd : (d + 1 == 0) = false := by simp
+                  simp only [hd, Bool.false_eq_true, if_false, Nat.add_sub_cancel] at hk
+                  obtain ⟨items, hcn, hseg, _⟩ := ih d s2 s' t2 hb.2.1 hk
+                  exact ⟨.etag q s2' :: items, .close _ _ _ _ hcn, mt_Seg.cons hb trivial trivial hseg,
+                    by intro t r h; cases h⟩
+              · obtain ⟨t1, ⟨s2, opened⟩, t2, hx, hk, rfl⟩ := tm_bind_ok h
+                obtain ⟨q, attrs, s1, hb⟩ := parseStartTag_item T hT hG txt hs ⟨r, hr⟩ hx
+                simp only at hk
+                cases opened with
+                | true =>
+                  simp only [if_true] at hk
+                  obtain ⟨items, hcn, hseg, _⟩ := ih (depth + 1) s2 s' t2 hb.2.1 hk
+                  exact ⟨.stag q attrs s1 false :: items, .open _ _ _ _ _ hcn, mt_Seg.cons hb trivial trivial hseg,
+                    by intro t r h; cases h⟩
+                | false =>
+                  simp only [Bool.false_eq_true, if_false] at hk
+                  obtain ⟨items, hcn, hseg, _⟩ := ih depth s2 s' t2 hb.2.1 hk
+                  exact ⟨.stag q attrs s1 true :: items, .empty _ _ _ _ _ hcn, mt_Seg.cons hb trivial trivial hseg,
+                    by intro t r h; cases h⟩
+        · exact absurd h (tm_lift_ne_ok (errAt_ne_ok _ _ _))
+      · rename_i hc
+        have hne : c ≠ bLt := by simpa using hc
+        obtain ⟨t1, s2, t2, hx, hk, rfl⟩ := tm_bind_ok h
+        obtain ⟨t, hb1, hb2, hb3, hb4, hstop⟩ := parseText_item T hT hG txt hs ⟨c, r, hr, hne⟩ hx
+        obtain ⟨items, hcn, hseg, htx⟩ := ih depth s2 s' t2 hb2 hk
+        refine ⟨.text t :: items, .text _ _ _ ?_ hcn, mt_Seg.cons ⟨hb1, hb2, hb3, hb4⟩ trivial trivial hseg,
+          fun _ _ _ => ⟨c, r, hr, hne⟩⟩
+        intro t' r' he
+        obtain ⟨b, rest, hbr, hbne⟩ := htx t' r' he
+        rcases hstop with h0 | ⟨r0, h0⟩
+        · rw [h0] at hbr; cases hbr
+        · rw [h0] at hbr
+          injection hbr with e1 _
+          exact hbne e1.symm
+
+theorem mt_parseElement_items {s s' : Stream} {toks : List Token} (hs : SOk txt s)
+    (hp : ∃ r, s.rest = bLt :: r) (h : parseElement T txt s = (toks, .ok s')) :
+    ∃ root, RootShape root ∧ mt_Seg T txt s s' root toks := by
+  unfold parseElement at h
+  obtain ⟨t1, ⟨s2, opened⟩, t2, hx, hk, rfl⟩ := tm_bind_ok h
+  obtain ⟨q, attrs, s1, hb⟩ := parseStartTag_item T hT hG txt hs hp hx
+  simp only at hk
+  cases opened with
+  | true =>
+    simp only [if_true] at hk
+    obtain ⟨items, hcn, hseg, _⟩ := mt_parseContent_items T hT hG txt _ 0 s2 s' t2 hb.2.1 hk
+    exact ⟨.stag q attrs s1 false :: items, .inr (.inr ⟨q, attrs, s1, items, rfl, hcn⟩),
+      mt_Seg.cons hb trivial trivial hseg⟩
+  | false =>
+    simp only [Bool.false_eq_true, if_false] at hk
+    obtain ⟨rfl, rfl⟩ := tm_pure_ok hk
+    exact ⟨[.stag q attrs s1 true], .inr (.inl ⟨q, attrs, s1, rfl⟩),
+      mt_Seg.cons hb trivial trivial (mt_Seg.nil hb.2.1)⟩
+
+theorem mt_parseProlog_items (hv : ValidUtf8 txt) {s' : Stream} {toks : List Token}
+    (h : parseProlog T txt = (toks, .ok s')) :
+    ∃ (bom decl : Bytes) (pre : List Item), (bom = [] ∨ bom = Lit.bom) ∧ (decl = [] ∨ XmlDecl T decl) ∧
+      (∀ it ∈ pre, it.isMiscI = true) ∧ txt = bom ++ decl ++ flat pre ++ s'.rest ∧ SOk txt s' ∧
+      (∀ it ∈ pre, it.Lex T) ∧ (∀ it ∈ pre, it.PiN T) ∧ ItemsToksM pre toks := by
+  unfold parseProlog at h
+  have hs0 := sok_new txt hv
+  simp only at h
+  obtain ⟨s1, h1, h⟩ := tm_lift_bind_ok h
+  obtain ⟨s2, h2, h⟩ := tm_lift_bind_ok h
+  obtain ⟨t1, s3, t2, h3, hk, rfl⟩ := tm_bind_ok h
+  obtain ⟨rfl, rfl⟩ := tm_pure_ok hk
+  -- BOM
+  have hbom : ∃ bom, (bom = [] ∨ bom = Lit.bom) ∧ Took (Stream.new txt) s1 bom ∧ SOk txt s1 := by
+    split at h1
+    · rename_i hb
+      have hvb : ValidUtf8 Lit.bom := by unfold ValidUtf8; decide
+      exact ⟨Lit.bom, .inr rfl, advance_took Lit.bom hb h1,
+        ((advance_lit hs0 Lit.bom hb hvb).post _ h1).1.2⟩
+    · injection h1 with h1
+      subst h1
+      exact ⟨[], .inl rfl, Took.nil _, hs0⟩
+  obtain ⟨bom, hbom, htb, hs1⟩ := hbom
+  -- declaration
+  have hdecl : ∃ decl, (decl = [] ∨ XmlDecl T decl) ∧ Took s1 s2 decl ∧ SOk txt s2 := by
+    split at h2
+    · rename_i hd
+      obtain ⟨decl, hd1, hd2, hd3⟩ := parseDeclaration_decl T hT hG txt hs1 hd h2
+      exact ⟨decl, .inr hd3, hd1, hd2⟩
+    · injection h2 with h2
+      subst h2
+      exact ⟨[], .inl rfl, Took.nil _, hs1⟩
+  obtain ⟨decl, hdecl, htd, hs2⟩ := hdecl
+  obtain ⟨m, hm, hmseg⟩ := mt_parseMisc_items T hT hG txt _ s2 s3 t1 hs2 h3
+  obtain ⟨sps, hsm, hsseg⟩ := mt_skipSpaces_seg T hT txt hmseg.2.1
+  have hall := hmseg.trans hsseg
+  refine ⟨bom, decl, m ++ sps, hbom, hdecl, gt_misc_append hm hsm, ?_, hall.2.1, hall.2.2.1,
+    hall.2.2.2.1, ?_⟩
+  · have := ((htb.trans htd).trans hall.1).eq
+    simpa [Stream.new] using this
+  · simpa using hall.2.2.2.2
+
+theorem mt_parseBody_items {s : Stream} {toks : List Token} (hs : SOk txt s)
+    (h : parseBody T txt s = (toks, .ok ())) :
+    ∃ (sps root post : List Item), (∀ it ∈ sps, it.isMiscI = true) ∧
+      (∀ it ∈ post, it.isMiscI = true) ∧ RootShape root ∧
+      s.rest = flat sps ++ flat root ++ flat post ∧ (∀ it ∈ sps ++ root ++ post, it.Lex T) ∧
+      (∀ it ∈ sps ++ root ++ post, it.PiN T) ∧ ItemsToksM (sps ++ root ++ post) toks := by
+  unfold parseBody at h
+  simp only at h
+  obtain ⟨sps, hsm, hsseg⟩ := mt_skipSpaces_seg T hT txt hs
+  obtain ⟨t1, s2, t2, h2, hk, rfl⟩ := tm_bind_ok h
+  obtain ⟨t3, s3, t4, h3, hk2, rfl⟩ := tm_bind_ok hk
+  have hroot : ∃ root, RootShape root ∧ mt_Seg T txt (s.skipSpaces T) s2 root t1 := by
+    unfold parseRootElement at h2
+    split at h2
+    · rename_i hc
+      cases hr : (s.skipSpaces T).rest with
+      | nil => simp [Stream.currByte?, hr] at hc
+      | cons b r =>
+        have : b = bLt := by simpa [Stream.currByte?, hr] using hc
+        subst this
+        exact mt_parseElement_items T hT hG txt hsseg.2.1 ⟨r, hr⟩ h2
+    · obtain ⟨rfl, rfl⟩ := tm_pure_ok h2
+      exact ⟨[], .inl rfl, mt_Seg.nil hsseg.2.1⟩
+  obtain ⟨root, hrs, hrseg⟩ := hroot
+  obtain ⟨post, hpm, hpseg⟩ := mt_parseMisc_items T hT hG txt _ s2 s3 t3 hrseg.2.1 h3
+  split at hk2
+  · exact absurd hk2 (tm_lift_ne_ok (errAt_ne_ok _ _ _))
+  · rename_i he
+    obtain ⟨rfl, _⟩ := tm_pure_ok hk2
+    have hend : s3.rest = [] := by simpa [Stream.atEnd] using he
+    have hall := (hsseg.trans hrseg).trans hpseg
+    refine ⟨sps, root, post, hsm, hpm, hrs, ?_, hall.2.2.1, hall.2.2.2.1, ?_⟩
+    · have := hall.1.eq
+      rw [hend] at this
+      simpa [gt_flat_append] using this
+    · simpa using hall.2.2.2.2
+
+end
+
 /-- **Stage A'** -/
 theorem tokenize_itemsM (T : Tables) (hT : TablesOK T) (hG : TablesGrammar T) (txt : Bytes)
     (hv : ValidUtf8 txt) (toks : List Token) (h : tokenize T txt false = (toks, .ok ())) :
@@ -19,6 +433,26 @@ theorem tokenize_itemsM (T : Tables) (hT : TablesOK T) (hG : TablesGrammar T) (t
       (∀ it ∈ pre, it.isMiscI = true) ∧ (∀ it ∈ post, it.isMiscI = true) ∧ RootShape root ∧
       (∀ it ∈ pre ++ root ++ post, it.Lex T) ∧ (∀ it ∈ pre ++ root ++ post, it.PiN T) ∧
       ItemsToksM (pre ++ root ++ post) toks := by
-  sorry
+  unfold tokenize parseDocument at h
+  obtain ⟨t1, s1, t2, h1, hk, rfl⟩ := tm_bind_ok h
+  obtain ⟨bom, decl, pre, hbom, hdecl, hpm, htxt, hs1, hplex, hppn, hptk⟩ :=
+    mt_parseProlog_items T hT hG txt hv h1
+  have hbody : parseBody T txt s1 = (t2, .ok ()) := by
+    split at hk
+    · simp only [Bool.not_false, if_true] at hk
+      exact absurd hk (tm_lift_ne_ok (by intro a h; cases h))
+    · exact hk
+  obtain ⟨sps, root, post, hsm, hpostm, hrs, hrest, hlex, hpn, htk⟩ :=
+    mt_parseBody_items T hT hG txt hs1 hbody
+  refine ⟨bom, decl, pre ++ sps, root, post, ?_, hbom, hdecl, gt_misc_append hpm hsm, hpostm, hrs,
+    ?_, ?_, ?_⟩
+  · rw [htxt, hrest]
+    simp [gt_flat_append]
+  · have := mt_all_append hplex hlex
+    simpa [List.append_assoc] using this
+  · have := mt_all_append hppn hpn
+    simpa [List.append_assoc] using this
+  · have := mt_itemsToksM_append hptk htk
+    simpa using this
 
 end Rox.Lemmas
